@@ -24,7 +24,6 @@ having local types we can modify.
 import logging
 
 # noinspection PyUnresolvedReferences
-from deepproto.proto.common.v1.common_pb2 import KeyValue
 # noinspection PyUnresolvedReferences
 from deepproto.proto.tracepoint.v1.tracepoint_pb2 import Snapshot, TracePointConfig, WatchResult, Variable, \
     VariableID, StackFrame, WatchSource
@@ -35,7 +34,7 @@ __all__ = [PushService.__name__]
 
 from ..api.tracepoint import TracePointConfig as TrPoCo, EventSnapshot, StackFrame as StFr, WatchResult as WaRe, \
     Variable as Var, VariableId as VarId
-from ..grpc import convert_value
+from ..grpc import convert_key_value
 from ..utils import wire_safe
 
 
@@ -104,9 +103,9 @@ def convert_snapshot(snapshot: EventSnapshot) -> Snapshot:
                         var_lookup=__convert_lookup(snapshot.var_lookup),
                         ts_nanos=snapshot.ts_nanos, frames=[__convert_frame(f) for f in snapshot.frames],
                         watches=[__convert_watch(w) for w in snapshot.watches],
-                        attributes=[KeyValue(key=k, value=convert_value(v)) for k, v in snapshot.attributes.items()],
+                        attributes=[convert_key_value(k, v) for k, v in snapshot.attributes.items()],
                         duration_nanos=snapshot.duration_nanos,
-                        resource=[KeyValue(key=k, value=convert_value(v)) for k, v in
+                        resource=[convert_key_value(k, v) for k, v in
                                   snapshot.resource.attributes.items()],
                         log_msg=__text(snapshot.log_msg))
     except Exception:
